@@ -963,7 +963,8 @@ func generate(seed uint64, thorough bool) []Case {
 				add(Case{Solo: true, TTLms: ttl, Acq: acq(), End: "unlock", HoldU: r.Range(72, 110), Two: "after", EndK: 2})
 				add(Case{Solo: true, TTLms: ttl, Acq: acq(), End: "unlock", HoldU: r.Range(72, 110), Two: prng.Pick(r, []string{"before", "first"}), EndK: r.Range(1, 2)})
 				// (ix) a crowd of other held locks and an unrelated far-away future in the same timer queue
-				add(Case{Solo: true, TTLms: ttl, Acq: acq(), End: "unlock", HoldU: r.Range(84, 120), Crowd: r.Range(3, 5)})
+				add(Case{Solo: true, TTLms: ttl, Acq: acq(), End: "unlock", HoldU: r.Range(84, 120), Crowd: r.Range(2, 3)})
+				add(Case{Solo: true, TTLms: ttl, Acq: acq(), End: "unlock", HoldU: r.Range(84, 120), Crowd: r.Range(4, 6)})
 			}
 		}
 	}
